@@ -190,16 +190,20 @@ CLAIMED = {
         "technique": "Coq proof (structural induction over both trees; keyed-join lemma modulo Python key equality) + differential correspondence",
     },
     "C03": {
-        "text": ("15 theorems (Coq, no axioms) over a model of set_value / _apply_change / _update_node with its "
+        "text": ("18 theorems (Coq, no axioms) over a model of set_value / _apply_change / _update_node with its "
                  "whole-document identity-driven recursion and Nodes.make_new_node / wrap_type: the recursion "
-                 "equals a pointwise substitution at the addressed position plus true aliases (C03_set_exact, "
-                 "frame and pointwise lemmas), well-formedness (unique anchor names) is preserved, a failing "
+                 "equals a pointwise substitution at the addressed position plus true aliases - as mapping values, "
+                 "sequence elements and (since the repair 7612ed9) mapping KEYS (C03_set_exact, frame and pointwise "
+                 "lemmas); a change that would rename an alias key onto an existing key is refused with a "
+                 "DuplicateKey YAML Path error and modifies nothing (C03_key_collision_refused, every document; "
+                 "formerly known finding F24); well-formedness is preserved, a failing "
                  "change leaves the document as it was, and any completed history of Set / Create / Delete "
-                 "operations refines a plain-data model over Doc.erase (C03_history_partial, guard = listed "
-                 "finding F24 alias-key collision; a Delete step only needs located coordinates since C04 F15 was "
-                 "repaired; C03_history_refuted witness).  The matched coordinates are inputs obtained from the real Processor.  Tie: "
+                 "operations refines a plain-data model over Doc.erase (C03_history_partial: replacements at "
+                 "locations, re-filed alias keys, removals, appended children; the guard no longer excludes alias "
+                 "keys nor - C04 F15 repaired - any located Delete; [name()] renames and matched set members stay "
+                 "outside).  The matched coordinates are inputs obtained from the real Processor.  Tie: "
                  "histories of length <= 4 (quick) / 6 (thorough) step by step against the real code, with a "
-                 "ruamel dump and strict reload after every step."),
+                 "ruamel dump and strict reload after every step, plus a structured stream for aliases used as keys."),
         "design_ref": "DESIGN.md section 4 (C03), docs/C03.md",
         "note": NOTE_COMMON + "  ruamel's dump/reload is exercised by the judge on every step, not modelled; float() and literal_eval are oracles.",
         "technique": "Coq proof (substitution lemma over an identity-addressed document model; refinement to plain data by induction over the history) + differential correspondence",
